@@ -49,6 +49,17 @@ class _Finally:
 
 
 def contains_yield(node: ast.AST) -> bool:
+    m = getattr(node, "_cy_memo", None)
+    if m is None:
+        m = _contains_yield(node)
+        try:
+            node._cy_memo = m
+        except Exception:  # pragma: no cover
+            pass
+    return m
+
+
+def _contains_yield(node: ast.AST) -> bool:
     for n in walk_shallow(node):
         if isinstance(n, ast.Lambda):
             continue
@@ -58,6 +69,19 @@ def contains_yield(node: ast.AST) -> bool:
 
 
 def may_raise(node: ast.AST, no_raise_calls=()) -> bool:
+    if not no_raise_calls:
+        m = getattr(node, "_mr_memo", None)
+        if m is None:
+            m = _may_raise(node, ())
+            try:
+                node._mr_memo = m
+            except Exception:  # pragma: no cover
+                pass
+        return m
+    return _may_raise(node, no_raise_calls)
+
+
+def _may_raise(node: ast.AST, no_raise_calls=()) -> bool:
     if isinstance(node, (ast.Raise, ast.Assert, ast.Import, ast.ImportFrom, ast.Delete)):
         return True
     for n in walk_shallow(node):
